@@ -95,3 +95,28 @@ class Stop:
     ensures_on_raise = dict(
         original_tasks_finished="all(t.done() for t in spawned)",
     )
+
+
+# ------------------------------------------------------------------ run(*actors)
+RU = "frequenz.sdk.actor._run_utils"
+ActorExtT = ExtObj("Actor", methods=dict(
+    start=dict(effects={"n_started": "self.n_started + 1", "is_running": "True"}),
+    wait=dict(is_async=True, raises=["BaseExceptionGroup", "CancelledError"])),
+    is_running=Bool, n_started=Int)
+
+
+@contract(f"{RU}:run")
+class RunActors:
+    """Running a group of actors: every actor that is not running is started exactly once (running ones are left
+    alone), one waiter per actor is created, and the call returns only when every waiter has finished - however
+    each one ended (normally, by an exception, cancelled) and in whatever order; nothing is raised."""
+    shapes = dict(actors=FixedList(ActorExtT, ActorExtT, container="tuple"))
+    aliases = dict(A0="actors[0]", A1="actors[1]")
+    modifies = ["actors"]
+    requires = dict(fresh="A0.n_started == 0 and A1.n_started == 0", distinct="not (A0 is A1)")
+    ensures = dict(
+        started_iff_not_running="A0.n_started == (0 if old(A0.is_running) else 1)"
+                                " and A1.n_started == (0 if old(A1.is_running) else 1)",
+        one_waiter_per_actor="len(created_tasks) == 2",
+        returns_only_when_all_finished="all(t.done() for t in created_tasks)",
+    )
